@@ -73,14 +73,29 @@ def osm_route(ctx: Ctx):
         n_ok += 1
         # the node path may be any expression whose alternatives all run from the END node of the origin link to the
         # START node of the destination link (a search call with those endpoints, or an explicit node list)
-        def node_path_ok(e):
+        def node_path_ok(e, depth=0):
             if isinstance(e, ast.IfExp):
-                return node_path_ok(e.body) and node_path_ok(e.orelse)
+                return node_path_ok(e.body, depth) and node_path_ok(e.orelse, depth)
             if isinstance(e, ast.Call) and flow.dump(e.func).startswith("nx.") and len(e.args) >= 3:
                 return flow.dump(e.args[0]) == "self.graph" and flow.dump(e.args[1]) == on and flow.dump(e.args[2]) == dn
             if isinstance(e, (ast.List, ast.Tuple)) and e.elts:
                 return flow.dump(e.elts[0]) == on and flow.dump(e.elts[-1]) == dn
-            return False
+            if isinstance(e, ast.Call) and isinstance(e.func, ast.Attribute) and flow.dump(e.func.value) == "self" and depth < 2 and fn.cls is not None:
+                # a method of the network that performs the search: every value it returns is judged with its parameters bound
+                m = ctx.repo.method(fn.cls, e.func.attr)
+                if m is None:
+                    raise AnalysisError(f"OSMRoadNetwork.route: node path comes from self.{e.func.attr}(...), which is not a method of the class")
+                prm = [x for x in m.params if x != "self"]
+                binding = dict(zip(prm, e.args))
+                binding.update({k.arg: k.value for k in e.keywords if k.arg})
+                rets = [q for q in flow.paths(m.node) if q.kind == "return" and q.value is not None]
+                if not rets:
+                    raise AnalysisError(f"OSMRoadNetwork.route: self.{e.func.attr}(...) has no value-returning path")
+                ctx.touched(m)
+                return all(node_path_ok(flow.subst(q.value, binding), depth + 1) for q in rets)
+            if isinstance(e, ast.Call) and not flow.dump(e.func).startswith("self."):
+                raise AnalysisError(f"OSMRoadNetwork.route: cannot see where the node path `{flow.dump(e)[:80]}` starts and ends")
+            return False  # read from something the network object stores: not the result of a search from / to these two nodes
         m = flow.match(f"resolve_route_src_dst_positions(route_from_nx_path(M_path, self.link_helper.links)[1], {o}, {d}, self)", p.value)
         good = m is not None and node_path_ok(m["M_path"])
         want = "resolve(...)"
